@@ -228,6 +228,13 @@ def wsPadLeft (w : Nat) (s : List UInt8) : List UInt8 := List.replicate (w - s.l
 /-- the verb ` + "`%-Ns`" + `: blanks behind up to the width -/
 def wsPadRight (w : Nat) (s : List UInt8) : List UInt8 := s ++ List.replicate (w - s.length) 32
 
+/-- ` + "`a < b`" + ` on Go strings: bytewise lexicographic -/
+def wsStrLt : List UInt8 → List UInt8 → Bool
+  | [], [] => false
+  | [], _ :: _ => true
+  | _ :: _, [] => false
+  | a :: as, b :: bs => if a < b then true else if b < a then false else wsStrLt as bs
+
 /-- ` + "`m[k]`" + ` on a ` + "`map[string]string`" + ` (` + "`none`" + `: the nil map; an association list otherwise) with the
 comma-ok result: ` + "`none`" + ` when the key is absent -/
 def wsMapGet (m : Option (List (List UInt8 × List UInt8))) (k : List UInt8) : Option (List UInt8) :=
@@ -336,6 +343,7 @@ func wStringSliceVar(p *wpkg, name string) []string {
 func insdcModule(repo string) *wmod {
 	m := newWmod(wLoadWorld(repo))
 	p := m.w.pkgs["seqio"]
+	m.callee(p, "searchString")
 	m.callee(p, "GetQualifierType")
 	m.callee(p, "QualifierIO.String")
 	m.callee(p, "QualifierFormatter.String")
